@@ -38,6 +38,9 @@ impl<'s> Attribute<'s> for PasswordAlgorithms<'s> {
             let params = &value[..len];
 
             algorithms.push((alg, params));
+
+            // continue behind the parameters and their padding
+            value = value.get(len + padding_usize(len)..).unwrap_or(&[]);
         }
 
         Ok(Self { algorithms })
